@@ -368,6 +368,8 @@ func (mr *memRepo) BlobCreate(opts ...BlobOpt) (BlobCreator, string, error) {
 			ok = false
 		}
 		if ok {
+			// the caller treats this like a finished upload, the blob is as recent as one
+			b.m.mod = time.Now()
 			return nil, "", types.ErrBlobExists
 		}
 	}
